@@ -423,8 +423,9 @@ void World::on_frame(Client &cl, const Frame &f) {
 	client_reaction(cl, f);
 	if (mode == "exact" && cl.faulty && !cl.no_expect && classify(f) == 2) {
 		// a routed request that did reach a faulty owner: its id is learnt so that the owner's reply, if it ever sends one, is attributed
-		flush_pending();
-		model.on_routed_observed(cl.idx, f.j.gets("method"), f.j.get("params"), f.j.gets("id"));
+		// the request that caused it may be a later message of the read being processed: feed only as far as needed (the deadline timers of the
+		// following requests are attributed in the order in which the model learns of them)
+		while (!model.on_routed_observed(cl.idx, f.j.gets("method"), f.j.get("params"), f.j.gets("id")) && feed_one_pending()) {}
 		// expectations that were conditional on a decision taken meanwhile (the request was accepted for routing) are void
 		for (auto &c2 : clients) for (size_t i = 0; i < c2.expq.size();) { Exp &x = c2.expq[i]; if (x.optional && x.decision >= 0 && x.decision < (int)model.decisions.size() && model.decisions[x.decision].state != 0) c2.expq.erase(c2.expq.begin() + (long)i); else i++; }
 	}
